@@ -693,10 +693,11 @@ pub fn shrink(def: &'static PropertyDef, case: &Case, v: &Violation, budget: usi
             }
         }
     }
-    // program source lines - not where the oracle is built into the program text (C12, C13: numbered sites
-    // whose surrounding lines say what must happen): dropping the statement of a site but keeping its marker
-    // lines would "reproduce" the signature with a program that no longer shows the defect
-    if best.program.source.is_some() && best.program.kind != "corpus-json" && !matches!(def.id, "C12" | "C13") {
+    // program source lines - not where the oracle rests on how the program was built (C12, C13: numbered
+    // sites whose surrounding lines say what must happen; C10: flows that share nothing; C16: functions that
+    // are total and pure): a program with lines taken out can "reproduce" the signature while it no longer
+    // meets that assumption, i.e. while it shows nothing about the property
+    if best.program.source.is_some() && best.program.kind != "corpus-json" && !matches!(def.id, "C10" | "C12" | "C13" | "C16") {
         let mut chunk = 8usize;
         loop {
             let lines: Vec<String> = best.program.source.as_ref().unwrap().lines().map(|s| s.to_string()).collect();
